@@ -1,0 +1,18 @@
+//go:build verif
+
+// Replay builders for package parser (see proxycore/zz_verif_replay.go).
+
+package parser
+
+import "fmt"
+
+// verifReplayIdentifierFromString: total on every string.
+func verifReplayIdentifierFromString(id string) (err error) {
+	defer func() {
+		if r := recover(); r != nil {
+			err = fmt.Errorf("IdentifierFromString(%q) panicked: %v", id, r)
+		}
+	}()
+	_ = IdentifierFromString(id)
+	return nil
+}
